@@ -640,6 +640,7 @@ func main() {
 		{"frameSrc", []string{"FrameSrc.lean"}, genFrameSrc},
 		{"aggSrc", []string{"AggSrc.lean"}, genAggSrc},
 		{"s3Src", []string{"S3Src.lean"}, genS3Src},
+		{"kafkaSrc", []string{"KafkaSrc.lean"}, genKafkaSrc},
 	}
 	status := map[string]interface{}{}
 	failed := 0
